@@ -2,8 +2,8 @@
    (registry of Go functions with their declared compliance flags, call graph,
    sinks).  Re-checked by coqc on every run of ./check C08 against what
    /repo's source says now.  A function wrongly declared iosafe makes
-   [table_ok] fail to compile. *)
-From Coq Require Import List String PArith NArith Bool.
+   [table_ok] fail to compile (the check then names the row and its path). *)
+From Coq Require Import List String PArith NArith Bool Arith.
 From GV Require Import Flags.Reach Flags.Generated.
 Import ListNotations.
 
@@ -13,49 +13,32 @@ Definition row_flags (r : row) : N := snd r.
 (* ComplyIoSafe = 1 << 2 *)
 Definition iosafe (fl : N) : bool := N.testbit fl 2.
 
-Definition is_known (n : positive) : bool :=
-  existsb (fun k => Pos.eqb (fst k) n) known_exceptions.
-
 Definition checked_roots : list positive :=
-  map row_root (filter (fun r => iosafe (row_flags r) && negb (is_known (row_root r))) registry).
+  map row_root (filter (fun r => iosafe (row_flags r)) registry).
 
 Lemma table_ok : no_path_b graph checked_roots sinks = true.
-Proof. vm_compute. reflexivity. Qed.
-
-Lemma known_ok :
-  forallb (fun k => witness_ok graph sinks k &&
-                    existsb (fun r => Pos.eqb (row_root r) (fst k) && iosafe (row_flags r)) registry)
-          known_exceptions = true.
 Proof. vm_compute. reflexivity. Qed.
 
 Lemma resolved_ok : unresolved = [].
 Proof. reflexivity. Qed.
 
-Theorem iosafe_functions_reach_no_sink_partial :
+(* every function declared iosafe reaches no sink: no exception list *)
+Theorem iosafe_functions_reach_no_sink :
   forall go lua root fl, In (go, lua, root, fl) registry ->
-  N.testbit fl 2 = true -> is_known root = false ->
+  N.testbit fl 2 = true ->
   forall s, In s sinks -> ~ path graph root s.
 Proof.
-  intros go lua root fl Hin Hio Hk s Hs.
+  intros go lua root fl Hin Hio s Hs.
   apply (no_path_sound graph checked_roots sinks table_ok); [|exact Hs].
   unfold checked_roots. apply in_map_iff. exists (go, lua, root, fl). split; [reflexivity|].
   apply filter_In. split; [exact Hin|].
-  unfold row_flags, row_root, iosafe; cbn [fst snd]. now rewrite Hio, Hk.
+  unfold row_flags, iosafe; cbn [fst snd]. exact Hio.
 Qed.
 
-Theorem known_exceptions_refuted :
-  forall k, In k known_exceptions ->
-  (exists r, In r registry /\ row_root r = fst k /\ N.testbit (row_flags r) 2 = true) /\
-  exists s, In s sinks /\ path graph (fst k) s.
-Proof.
-  intros k Hk. pose proof known_ok as H. rewrite forallb_forall in H. specialize (H k Hk).
-  apply andb_true_iff in H. destruct H as [H1 H2]. split.
-  - apply existsb_exists in H2. destruct H2 as (r & Hr & E). apply andb_true_iff in E. destruct E as [E1 E2].
-    apply Pos.eqb_eq in E1. exists r; auto.
-  - now apply witness_sound.
-Qed.
+(* the statement is not vacuous: there are rows declared iosafe, sinks, and edges *)
+Lemma table_nonvacuous :
+  (0 <? List.length checked_roots)%nat && (0 <? List.length sinks)%nat && (0 <? List.length graph)%nat = true.
+Proof. vm_compute. reflexivity. Qed.
 
-(* how much is excepted: with an empty list the _partial theorem is the full statement *)
-Definition known_exception_count : nat := List.length known_exceptions.
 Definition checked_root_count : nat := List.length checked_roots.
 Definition registry_count : nat := List.length registry.
